@@ -55,15 +55,15 @@ PROPS = {
                   "CV.deliver_rejected_unchanged", "CV.later_failure_unchanged", "CV.runMsgs_fails", "CV.Coinswap.poolTax_ok", "CV.total_supply_inv", "CV.Coinswap.rejected_unchanged_monitor", "CV.Coinswap.swap_conserves_monitor", "CV.Coinswap.remove_conserves_monitor", "CV.Coinswap.removeEffs_sender_lpt", "CV.Coinswap.nodup_eraseDups"] + _CS_BRIDGE_CORE,
         comps={"outcome", "bank", "pools"}, triggers=_CS_TRIGGERS, assumptions=_CS_ASSUME),
     "C08": dict(
-        suite="coinswap", modules=["CantoVerif.Props.C08", "CantoVerif.Props.C08AutoSwap"] + _CS_BRIDGE_MODULES,
-        theorems=["CV.Coinswap.deadline_respected", "CV.Coinswap.deadline_monitor", "CV.Coinswap.swap_delivered", "CV.Coinswap.swap_delivered_monitor", "CV.Coinswap.swap_full", "CV.Coinswap.swap_bounds_rounding_monitor", "CV.Coinswap.autoSwap_full", "CV.Coinswap.autoSwap_monitors", "CV.Coinswap.remove_bounds_monitor", "CV.Coinswap.removeEffs_exact", "CV.Coinswap.swapEffs_exact", "CV.Coinswap.notPast_of_not_pastDeadline", "CV.Coinswap.sell_exact_in_min_out",
+        suite="coinswap", modules=["CantoVerif.Props.C08", "CantoVerif.Props.C08AutoSwap", "CantoVerif.Props.C08Add"] + _CS_BRIDGE_MODULES,
+        theorems=["CV.Coinswap.deadline_respected", "CV.Coinswap.deadline_monitor", "CV.Coinswap.swap_delivered", "CV.Coinswap.swap_delivered_monitor", "CV.Coinswap.swap_full", "CV.Coinswap.swap_bounds_rounding_monitor", "CV.Coinswap.autoSwap_full", "CV.Coinswap.autoSwap_monitors", "CV.Coinswap.add_full", "CV.Coinswap.add_bounds_cap_monitor", "CV.Coinswap.addEffs_exact", "CV.Coinswap.find_insertPool", "CV.Coinswap.remove_bounds_monitor", "CV.Coinswap.removeEffs_exact", "CV.Coinswap.swapEffs_exact", "CV.Coinswap.notPast_of_not_pastDeadline", "CV.Coinswap.sell_exact_in_min_out",
                   "CV.Coinswap.buy_exact_out_max_in", "CV.Coinswap.add_bounds", "CV.Coinswap.remove_bounds",
                   "CV.Coinswap.sell_bound_tight", "CV.Coinswap.inputPrice_ok", "CV.Coinswap.outputPrice_ok",
                   "CV.Coinswap.addLiveAmounts_ok", "CV.Coinswap.removeAmounts_ok"] + _CS_BRIDGE,
         comps={"outcome", "bank", "resp"}, triggers=_CS_TRIGGERS, assumptions=_CS_ASSUME),
     "C09": dict(
-        suite="coinswap", modules=["CantoVerif.Props.C09", "CantoVerif.Props.C09Monitors"] + _CS_BRIDGE_MODULES,
-        theorems=["CV.Coinswap.swap_caps_pool", "CV.Coinswap.swap_whitelist_cap_monitor", "CV.Coinswap.add_whitelist_monitor", "CV.Coinswap.autoSwap_whitelist_monitor", "CV.Coinswap.swap_caps", "CV.Coinswap.no_module_recipient", "CV.Coinswap.no_module_recipient_monitor", "CV.Coinswap.blocked_any_form",
+        suite="coinswap", modules=["CantoVerif.Props.C09", "CantoVerif.Props.C09Monitors", "CantoVerif.Props.C08Add"] + _CS_BRIDGE_MODULES,
+        theorems=["CV.Coinswap.swap_caps_pool", "CV.Coinswap.swap_whitelist_cap_monitor", "CV.Coinswap.add_whitelist_monitor", "CV.Coinswap.add_bounds_cap_monitor", "CV.Coinswap.add_full", "CV.Coinswap.autoSwap_whitelist_monitor", "CV.Coinswap.swap_caps", "CV.Coinswap.no_module_recipient", "CV.Coinswap.no_module_recipient_monitor", "CV.Coinswap.blocked_any_form",
                   "CV.Coinswap.add_caps", "CV.Coinswap.pools_against_standard", "CV.Coinswap.wf_step", "CV.Coinswap.quoteLeg_fst"] + _CS_BRIDGE_CORE,
         comps={"outcome", "bank"}, triggers=_CS_TRIGGERS, assumptions=_CS_ASSUME),
 }
